@@ -178,7 +178,7 @@ func (s *statsT) record(prop string, res *CheckResult, known []string) {
 		id, _, _ := strings.Cut(k, ":")
 		s.Excluded[id]++
 	}
-	if res.Sample != nil && res.NonTrivial && len(s.Samples) < 4 && s.Evaluations%7 == 1 {
+	if res.Sample != nil && len(s.Samples) < 4 && ((res.NonTrivial && s.Evaluations%7 == 1) || (len(s.Samples) == 0 && s.Evaluations > 50)) {
 		s.Samples = append(s.Samples, res.Sample)
 	}
 }
